@@ -353,10 +353,15 @@ type verifC14Req struct {
 	pendSpend *chainntnfs.HistoricalSpendDispatch
 	staleDiag bool
 
-	// orphan is set when a historical rescan delivered found details
-	// while the request had no live client (all cancelled); see the
-	// fingerprint suffix in violation().
-	orphan bool
+	// Known-finding class KF-C14-1, proven harness-side: orphanBlk is the
+	// block of found rescan details that were delivered while the request
+	// had no live client (all cancelled) and no client has registered
+	// since; orphanStale is set once that very block is disconnected in
+	// this state (from then on the notifier's cached details and the
+	// persisted hint of this request are stale). Only then violation()
+	// appends the fingerprint suffix.
+	orphanBlk   *verifC14Seen
+	orphanStale bool
 }
 
 type verifC14Seen struct {
@@ -390,6 +395,11 @@ type verifC14H struct {
 	cache *channeldb.HeightHintCache
 	limit uint32
 
+	// mu serialises the harness bookkeeping (model, clients, PRNG) in the
+	// concurrent phases; the notifier calls of the backend goroutine are
+	// made outside it.
+	mu sync.Mutex
+
 	reqs    map[string]*verifC14Req
 	reqList []*verifC14Req
 	clients []*verifC14Client
@@ -398,8 +408,8 @@ type verifC14H struct {
 	stuck   int
 
 	nReorgBlocks, nConfirmed, nSpent, nNeg, nReorgEv, nHist, nRestart int
-	maxDepth                                                         int
-	deepest                                                          bool
+	maxDepth                                                          int
+	deepest                                                           bool
 }
 
 func (h *verifC14H) logf(format string, a ...any) {
@@ -414,15 +424,10 @@ func (h *verifC14H) witness() any {
 	return map[string]any{"limit": h.limit, "ops": l}
 }
 
-func (h *verifC14H) violation(oracle, key, detail string) {
+func (h *verifC14H) violation(q *verifC14Req, oracle, key, detail string) {
 	h.failed = true
-	for _, q := range h.reqList {
-		if q.orphan {
-			// fingerprint class: some request of this history got
-			// its rescan result while it had no client left.
-			key += "+rescan-found-for-clientless-request"
-			break
-		}
+	if q != nil && q.orphanStale {
+		key += "+rescan-found-for-clientless-request"
 	}
 	h.vc.Violation(oracle, key, detail, h.witness())
 }
@@ -432,6 +437,13 @@ func (h *verifC14H) violation(oracle, key, detail string) {
 // full client channel, the pump below keeps consuming so that the run ends
 // with an oracle verdict instead of a hang.
 func (h *verifC14H) call(name string, fn func() error) {
+	h.callTol(name, false, fn)
+}
+
+// callTol: with tolerate set an error return is recorded as a diagnostic
+// only (the real backends merely log a failed Update*Details, e.g. for a
+// request that matured and was dropped while its rescan was in flight).
+func (h *verifC14H) callTol(name string, tolerate bool, fn func() error) {
 	done := make(chan error, 1)
 	go func() { done <- fn() }()
 	timer := time.NewTimer(3 * time.Second)
@@ -439,7 +451,10 @@ func (h *verifC14H) call(name string, fn func() error) {
 	for {
 		select {
 		case err := <-done:
-			if err != nil {
+			if err != nil && tolerate {
+				h.vc.Diag("update_details_error", name+": "+err.Error())
+				h.logf("err(tolerated) %s: %v", name, err)
+			} else if err != nil {
 				h.vc.Diag("api_error", name+": "+err.Error())
 				h.logf("ERR %s: %v", name, err)
 				h.failed = true
@@ -500,20 +515,20 @@ func (h *verifC14H) onConfirmed(c *verifC14Client, d *chainntnfs.TxConfirmation)
 	h.logf("  <- Confirmed c%d h=%d", c.ID, d.BlockHeight)
 	switch {
 	case b == nil:
-		h.violation("conf_sound", "confirmed-not-on-active-chain",
+		h.violation(c.Req, "conf_sound", "confirmed-not-on-active-chain",
 			desc+": the model's active chain does not contain the transaction")
 	case d.BlockHash == nil || *d.BlockHash != b.Hash || d.BlockHeight != b.Height:
-		h.violation("conf_sound", "confirmed-wrong-block",
+		h.violation(c.Req, "conf_sound", "confirmed-wrong-block",
 			fmt.Sprintf("%s: on the active chain it is in block %v at height %d", desc, b.Hash, b.Height))
 	case tip-b.Height+1 < c.NumConfs:
-		h.violation("conf_sound", "confirmed-too-early",
+		h.violation(c.Req, "conf_sound", "confirmed-too-early",
 			fmt.Sprintf("%s: only %d confirmations on the active chain", desc, tip-b.Height+1))
 	case d.Tx == nil || d.Tx.TxHash() != tx.Hash || d.TxIndex != b.TxIdx[tx.ID]:
-		h.violation("conf_sound", "confirmed-wrong-tx-details",
+		h.violation(c.Req, "conf_sound", "confirmed-wrong-tx-details",
 			fmt.Sprintf("%s: expected tx %v at index %d", desc, tx.Hash, b.TxIdx[tx.ID]))
 	}
 	if d.Block != nil && b != nil && d.Block.BlockHash() != b.Hash {
-		h.violation("conf_sound", "confirmed-wrong-block-body", desc)
+		h.violation(c.Req, "conf_sound", "confirmed-wrong-block-body", desc)
 	}
 	if c.InclBlk && d.Block == nil {
 		h.vc.Diag("include_block_missing", desc)
@@ -523,11 +538,11 @@ func (h *verifC14H) onConfirmed(c *verifC14Client, d *chainntnfs.TxConfirmation)
 	}
 	h.vc.Count("oracle_conf_once_evals", 1)
 	if c.seen != nil {
-		h.violation("conf_once", "confirmed-twice-without-reorg",
+		h.violation(c.Req, "conf_once", "confirmed-twice-without-reorg",
 			desc+fmt.Sprintf(": client was already told it confirmed at height %d and that block is still active", c.seen.Height))
 	}
 	if c.needNeg {
-		h.violation("reorg_before_reconfirm", "confirmed-again-without-negative-conf",
+		h.violation(c.Req, "reorg_before_reconfirm", "confirmed-again-without-negative-conf",
 			desc+": the block of the previous confirmation was disconnected and no NegativeConf was delivered before this renewed confirmation")
 	}
 	s := &verifC14Seen{Height: d.BlockHeight}
@@ -547,23 +562,23 @@ func (h *verifC14H) onSpend(c *verifC14Client, d *chainntnfs.SpendDetail) {
 	h.logf("  <- Spend c%d h=%d", c.ID, d.SpendingHeight)
 	switch {
 	case b == nil:
-		h.violation("spend_sound", "spend-not-on-active-chain",
+		h.violation(c.Req, "spend_sound", "spend-not-on-active-chain",
 			desc+": the watched outpoint is unspent on the model's active chain")
 	case d.SpenderTxHash == nil || *d.SpenderTxHash != tx.Hash || uint32(d.SpendingHeight) != b.Height:
-		h.violation("spend_sound", "spend-wrong-tx-or-height",
+		h.violation(c.Req, "spend_sound", "spend-wrong-tx-or-height",
 			fmt.Sprintf("%s: on the active chain it is spent by %v at height %d", desc, tx.Hash, b.Height))
 	case d.SpentOutPoint == nil || *d.SpentOutPoint != g.FundIn || d.SpenderInputIndex != tx.InIdx[g.ID] ||
 		d.SpendingTx == nil || d.SpendingTx.TxHash() != tx.Hash:
 
-		h.violation("spend_sound", "spend-wrong-details",
+		h.violation(c.Req, "spend_sound", "spend-wrong-details",
 			fmt.Sprintf("%s: expected outpoint %v input %d", desc, g.FundIn, tx.InIdx[g.ID]))
 	}
 	h.vc.Count("oracle_spend_once_evals", 1)
 	if c.seen != nil {
-		h.violation("spend_once", "spend-twice-without-reorg", desc)
+		h.violation(c.Req, "spend_once", "spend-twice-without-reorg", desc)
 	}
 	if c.needNeg {
-		h.violation("reorg_before_respend", "spend-again-without-reorg-notice",
+		h.violation(c.Req, "reorg_before_respend", "spend-again-without-reorg-notice",
 			desc+": the spending block told before was disconnected and no Reorg was delivered before this renewed Spend")
 	}
 	s := &verifC14Seen{Height: uint32(d.SpendingHeight)}
@@ -619,7 +634,7 @@ func (h *verifC14H) drainClient(c *verifC14Client) {
 					continue
 				}
 				if d == nil {
-					h.violation("conf_sound", "nil-confirmation", fmt.Sprintf("client %d got nil", c.ID))
+					h.violation(c.Req, "conf_sound", "nil-confirmation", fmt.Sprintf("client %d got nil", c.ID))
 					continue
 				}
 				h.onConfirmed(c, d)
@@ -681,7 +696,7 @@ func (h *verifC14H) drainClient(c *verifC14Client) {
 				continue
 			}
 			if d == nil {
-				h.violation("spend_sound", "nil-spend", fmt.Sprintf("client %d got nil", c.ID))
+				h.violation(c.Req, "spend_sound", "nil-spend", fmt.Sprintf("client %d got nil", c.ID))
 				continue
 			}
 			h.onSpend(c, d)
@@ -723,7 +738,7 @@ func (h *verifC14H) quiescent(where string) {
 			if c.Req.IsSpend {
 				what, oracle = "Reorg", "spend_reorg_notice"
 			}
-			h.violation(oracle, "no-reorg-notice-after-disconnect",
+			h.violation(c.Req, oracle, "no-reorg-notice-after-disconnect",
 				fmt.Sprintf("%s: client %d req %s was told about block height %d which has been disconnected, but no %s was delivered",
 					where, c.ID, c.Req.Key, c.lastSeenHeight(), what))
 			c.needNeg = false
@@ -750,7 +765,7 @@ func (h *verifC14H) quiescent(where string) {
 		if c.Req.IsSpend {
 			h.vc.Count("oracle_spend_complete_evals", 1)
 			if c.seen == nil {
-				h.violation("spend_complete", "spent-on-chain-client-not-told",
+				h.violation(c.Req, "spend_complete", "spent-on-chain-client-not-told",
 					fmt.Sprintf("%s: client %d req %s: outpoint spent at height %d (tip %d) but the client has no Spend",
 						where, c.ID, c.Req.Key, b.Height, tip))
 			}
@@ -758,7 +773,7 @@ func (h *verifC14H) quiescent(where string) {
 		}
 		h.vc.Count("oracle_conf_complete_evals", 1)
 		if c.seen == nil {
-			h.violation("conf_complete", "confirmed-on-chain-client-not-told",
+			h.violation(c.Req, "conf_complete", "confirmed-on-chain-client-not-told",
 				fmt.Sprintf("%s: client %d req %s numConfs=%d: tx in block height %d, tip %d (%d confs) but the client has no Confirmed",
 					where, c.ID, c.Req.Key, c.NumConfs, b.Height, tip, tip-b.Height+1))
 		}
@@ -798,7 +813,7 @@ func (h *verifC14H) checkHints(where string) {
 				if q.staleDiag {
 					key += "-stale-since-pending-rescan"
 				}
-				h.violation("hint_le_inclusion", key,
+				h.violation(q, "hint_le_inclusion", key,
 					fmt.Sprintf("%s: persisted %s hint %d for %s exceeds the height %d at which it is included on the active chain (tip %d)",
 						where, kind, hint, q.Key, b.Height, tip))
 			}
@@ -887,6 +902,12 @@ func (h *verifC14H) disconnect() {
 			}
 		}
 	}
+	for _, q := range h.reqList {
+		if q.orphanBlk != nil && q.orphanBlk.Hash == b.Hash {
+			q.orphanStale = true
+			h.vc.Count("kf_c14_1_precondition_met", 1)
+		}
+	}
 	h.call("DisconnectTip", func() error { return h.n.DisconnectTip(b.Height) })
 	h.drain()
 	h.nReorgBlocks++
@@ -896,7 +917,7 @@ func (h *verifC14H) disconnect() {
 
 func (h *verifC14H) pickHint(q *verifC14Req) uint32 {
 	tip := h.m.tip()
-	max := tip + 2
+	max := tip + 1
 	if b, _ := h.truth(q); b != nil {
 		max = b.Height
 	}
@@ -1049,6 +1070,11 @@ func (h *verifC14H) register(q *verifC14Req, immediate bool) {
 		h.logf("regConf c%d %s n=%d hint=%d dispatch=%v tip=%d", c.ID, q.Key, c.NumConfs, hint, reg.HistoricalDispatch != nil, h.m.tip())
 	}
 	h.clients = append(h.clients, c)
+	if q.orphanBlk != nil && !q.orphanStale {
+		// a client joined while the block is still active: the
+		// notifier's per-client dispatch indexes the request now.
+		q.orphanBlk = nil
+	}
 	h.drain()
 	if immediate && q.state == 1 {
 		h.deliver(q)
@@ -1076,6 +1102,7 @@ func (h *verifC14H) deliver(q *verifC14Req) bool {
 			return false
 		}
 		var det *chainntnfs.SpendDetail
+		var detHeight uint32
 		g := h.u.Groups[q.Group]
 	scanS:
 		for ht := d.EndHeight; ht >= d.StartHeight && ht > 0; ht-- {
@@ -1097,16 +1124,14 @@ func (h *verifC14H) deliver(q *verifC14Req) bool {
 						SpenderInputIndex: uint32(i),
 						SpendingHeight:    int32(ht),
 					}
+					detHeight = ht
 					break scanS
 				}
 			}
 		}
 		h.logf("deliverSpend %s range=[%d,%d] found=%v tip=%d", q.Key, d.StartHeight, d.EndHeight, det != nil, h.m.tip())
-		if det != nil && h.liveClients(q) == 0 {
-			q.orphan = true
-			h.vc.Count("rescan_found_for_clientless_request", 1)
-		}
-		h.call("UpdateSpendDetails", func() error { return h.n.UpdateSpendDetails(d.SpendRequest, det) })
+		h.noteOrphan(q, det != nil, detHeight)
+		h.callTol("UpdateSpendDetails", true, func() error { return h.n.UpdateSpendDetails(d.SpendRequest, det) })
 		q.pendSpend = nil
 	} else {
 		d := q.pendConf
@@ -1114,6 +1139,7 @@ func (h *verifC14H) deliver(q *verifC14Req) bool {
 			return false
 		}
 		var det *chainntnfs.TxConfirmation
+		var detHeight uint32
 		g := h.u.Groups[q.Group]
 	scanC:
 		for ht := d.EndHeight; ht >= d.StartHeight && ht > 0; ht-- {
@@ -1142,21 +1168,30 @@ func (h *verifC14H) deliver(q *verifC14Req) bool {
 					TxIndex:     uint32(i),
 					Block:       b.Blk.MsgBlock(),
 				}
+				detHeight = ht
 				break scanC
 			}
 		}
 		h.logf("deliverConf %s range=[%d,%d] found=%v tip=%d", q.Key, d.StartHeight, d.EndHeight, det != nil, h.m.tip())
-		if det != nil && h.liveClients(q) == 0 {
-			q.orphan = true
-			h.vc.Count("rescan_found_for_clientless_request", 1)
-		}
-		h.call("UpdateConfDetails", func() error { return h.n.UpdateConfDetails(d.ConfRequest, det) })
+		h.noteOrphan(q, det != nil, detHeight)
+		h.callTol("UpdateConfDetails", true, func() error { return h.n.UpdateConfDetails(d.ConfRequest, det) })
 		q.pendConf = nil
 	}
 	q.state = 2
 	h.vc.Count("historical_delivered", 1)
 	h.drain()
 	return true
+}
+
+// noteOrphan records the precondition of known finding KF-C14-1.
+func (h *verifC14H) noteOrphan(q *verifC14Req, found bool, height uint32) {
+	if !found || h.liveClients(q) != 0 || q.orphanStale {
+		return
+	}
+	if b := h.m.at(height); b != nil {
+		q.orphanBlk = &verifC14Seen{Height: b.Height, Hash: b.Hash}
+		h.vc.Count("rescan_found_for_clientless_request", 1)
+	}
 }
 
 func (h *verifC14H) liveClients(q *verifC14Req) int {
@@ -1217,6 +1252,9 @@ func (h *verifC14H) restart() {
 	}
 	for _, q := range h.reqList {
 		q.state, q.pendConf, q.pendSpend = 0, nil, nil
+		if !q.orphanStale {
+			q.orphanBlk = nil
+		}
 	}
 	off := h.r.Intn(3)
 	for i := 0; i < off; i++ {
@@ -1292,53 +1330,9 @@ func verifC14OpenCache(t *testing.T, name string, batch bool) (*channeldb.Height
 	return cache, func() { db.Close() }
 }
 
-type verifC14Input struct {
-	Limit  uint32 `json:"limit"`
-	Start  uint32 `json:"start"`
-	Pre    int    `json:"pre"`
-	Ops    int    `json:"ops"`
-	NConf  int    `json:"conf_groups"`
-	NSpend int    `json:"spend_groups"`
-	NTx    int    `json:"txs"`
-}
-
-func verifC14RunCase(t *testing.T, vc *verifCtx, i int, cache *channeldb.HeightHintCache) {
-	r := vc.Rng(i)
-	h := &verifC14H{t: t, vc: vc, r: r, cache: cache, reqs: map[string]*verifC14Req{}}
-	h.limit = verifC14LimitChoices[r.Intn(len(verifC14LimitChoices))]
-	h.u = verifC14NewUniverse(r)
-	start := uint32(150 + r.Intn(400))
-	if r.Chance(1, 10) {
-		start = uint32(2 + r.Intn(10))
-	}
-	pre := r.Intn(6)
-	if uint32(pre) >= start {
-		pre = int(start) - 1
-	}
-	nops := 10 + r.Intn(31)
-	in := verifC14Input{Limit: h.limit, Start: start, Pre: pre, Ops: nops,
-		NConf: len(h.u.ConfG), NSpend: len(h.u.SpendG), NTx: len(h.u.Txs)}
-	vc.Case(i, in)
-
-	h.m = &verifC14Model{base: start - uint32(pre), inChain: map[int]*verifC14Block{},
-		groupIn: map[int]*verifC14Tx{}, prev: verifC14RandHash(r)}
-	// pre-history: blocks that exist before the notifier starts.
-	h.m.mine(r, nil)
-	for k := 0; k < pre; k++ {
-		b := h.m.mine(r, h.pickBlockTxs())
-		ids := []int{}
-		for _, tx := range b.Txs {
-			ids = append(ids, tx.ID)
-		}
-		h.logf("pre-history block height=%d txs=%v", b.Height, ids)
-	}
-	h.n = chainntnfs.NewTxNotifier(h.m.tip(), h.limit, cache, cache)
-	h.logf("notifier started at %d limit=%d", h.m.tip(), h.limit)
-
-	// one early registration so that the history is never empty.
-	h.register(h.getReq(r.Bool()), r.Bool())
-
-	for op := 0; op < nops && !h.failed; op++ {
+func (h *verifC14H) seqOp() {
+	r := h.r
+	{
 		x := r.Intn(100)
 		switch {
 		case x < 40:
@@ -1370,7 +1364,8 @@ func verifC14RunCase(t *testing.T, vc *verifCtx, i int, cache *channeldb.HeightH
 			}
 			// usually the new branch follows immediately.
 			if r.Chance(3, 4) {
-				for k := 0; k < d+r.Intn(2) && !h.failed; k++ {
+				nb := d + r.Intn(2)
+				for k := 0; k < nb && !h.failed; k++ {
 					h.connect(nil)
 				}
 			}
@@ -1395,7 +1390,60 @@ func verifC14RunCase(t *testing.T, vc *verifCtx, i int, cache *channeldb.HeightH
 			h.restart()
 		}
 	}
-	// wind down: complete every outstanding rescan, then a last block.
+}
+
+type verifC14Input struct {
+	Limit  uint32 `json:"limit"`
+	Start  uint32 `json:"start"`
+	Pre    int    `json:"pre"`
+	Ops    int    `json:"ops"`
+	NConf  int    `json:"conf_groups"`
+	NSpend int    `json:"spend_groups"`
+	NTx    int    `json:"txs"`
+}
+
+func verifC14Setup(t *testing.T, vc *verifCtx, i int, cache *channeldb.HeightHintCache,
+	minOps, spanOps int) (*verifC14H, verifC14Input) {
+
+	r := vc.Rng(i)
+	h := &verifC14H{t: t, vc: vc, r: r, cache: cache, reqs: map[string]*verifC14Req{}}
+	h.limit = verifC14LimitChoices[r.Intn(len(verifC14LimitChoices))]
+	h.u = verifC14NewUniverse(r)
+	start := uint32(150 + r.Intn(400))
+	if r.Chance(1, 10) {
+		start = uint32(2 + r.Intn(10))
+	}
+	pre := r.Intn(6)
+	if uint32(pre) >= start {
+		pre = int(start) - 1
+	}
+	nops := minOps + r.Intn(spanOps)
+	in := verifC14Input{Limit: h.limit, Start: start, Pre: pre, Ops: nops,
+		NConf: len(h.u.ConfG), NSpend: len(h.u.SpendG), NTx: len(h.u.Txs)}
+	vc.Case(i, in)
+
+	h.m = &verifC14Model{base: start - uint32(pre), inChain: map[int]*verifC14Block{},
+		groupIn: map[int]*verifC14Tx{}, prev: verifC14RandHash(r)}
+	// pre-history: blocks that exist before the notifier starts.
+	h.m.mine(r, nil)
+	for k := 0; k < pre; k++ {
+		b := h.m.mine(r, h.pickBlockTxs())
+		ids := []int{}
+		for _, tx := range b.Txs {
+			ids = append(ids, tx.ID)
+		}
+		h.logf("pre-history block height=%d txs=%v", b.Height, ids)
+	}
+	h.n = chainntnfs.NewTxNotifier(h.m.tip(), h.limit, cache, cache)
+	h.logf("notifier started at %d limit=%d", h.m.tip(), h.limit)
+
+	// one early registration so that the history is never empty.
+	h.register(h.getReq(r.Bool()), r.Bool())
+	return h, in
+}
+
+// windDown completes every outstanding rescan, then connects a last block.
+func (h *verifC14H) windDown() {
 	for guard := 0; guard < 200 && !h.failed; guard++ {
 		p := h.pending()
 		if len(p) == 0 {
@@ -1415,8 +1463,11 @@ func verifC14RunCase(t *testing.T, vc *verifCtx, i int, cache *channeldb.HeightH
 		h.quiescent("after final rescans")
 		h.connect(nil)
 	}
-	h.n.TearDown()
+}
 
+func (h *verifC14H) finish(i int, in verifC14Input) {
+	vc := h.vc
+	h.n.TearDown()
 	if h.nConfirmed+h.nSpent > 0 {
 		vc.Count("histories_with_notification", 1)
 	}
@@ -1426,6 +1477,9 @@ func verifC14RunCase(t *testing.T, vc *verifCtx, i int, cache *channeldb.HeightH
 	if h.deepest {
 		vc.Count("histories_with_limit_depth_reorg", 1)
 	}
+	if h.nRestart > 0 {
+		vc.Count("histories_with_restart", 1)
+	}
 	if h.nConfirmed+h.nSpent > 0 && h.nReorgBlocks > 0 {
 		vc.Sig(fmt.Sprintf("L%d|d%d|c%d|s%d|n%d|r%d|h%d|rs%d", h.limit, verifC14Bucket(h.maxDepth),
 			verifC14Bucket(h.nConfirmed), verifC14Bucket(h.nSpent), verifC14Bucket(h.nNeg),
@@ -1434,7 +1488,152 @@ func verifC14RunCase(t *testing.T, vc *verifCtx, i int, cache *channeldb.HeightH
 	if i%97 == 0 {
 		vc.Sample(map[string]any{"input": in, "ops": h.log})
 	}
+	if vc.Only >= 0 {
+		for _, l := range h.log {
+			h.t.Log(l)
+		}
+	}
 	vc.CaseDone(i)
+}
+
+func verifC14RunCase(t *testing.T, vc *verifCtx, i int, cache *channeldb.HeightHintCache) {
+	h, in := verifC14Setup(t, vc, i, cache, 10, 31)
+	for op := 0; op < in.Ops && !h.failed; op++ {
+		h.seqOp()
+	}
+	h.windDown()
+	h.finish(i, in)
+}
+
+// ---------------------------------------------------------------------------
+// Concurrent slice (-race): in the concurrent phases the backend goroutine
+// connects blocks (ConnectTip/NotifyHeight outside the harness lock) while
+// other goroutines register, cancel and complete historical rescans and a
+// consumer goroutine keeps draining every client. The chain only grows inside
+// a concurrent phase; reorgs happen in the sequential interludes between them.
+// The same trace automaton is used: with a growing chain every soundness
+// clause is interleaving-independent (the model tip is advanced before the
+// notifier is told), completeness and hints are evaluated at the quiescent
+// end of each phase.
+
+func (h *verifC14H) concurrentPhase() {
+	var wg sync.WaitGroup
+	stop := make(chan struct{})
+	nblocks := 2 + h.r.Intn(4)
+	nworkers := 2 + h.r.Intn(2)
+	opsPer := 1 + h.r.Intn(3)
+	h.logf("concurrent phase: %d blocks, %d client goroutines x %d ops", nblocks, nworkers, opsPer)
+
+	// consumer
+	consumerDone := make(chan struct{})
+	go func() {
+		defer close(consumerDone)
+		for {
+			select {
+			case <-stop:
+				return
+			default:
+			}
+			h.mu.Lock()
+			h.drain()
+			h.mu.Unlock()
+			time.Sleep(20 * time.Microsecond)
+		}
+	}()
+
+	// backend
+	wg.Add(1)
+	go func() {
+		defer wg.Done()
+		for k := 0; k < nblocks; k++ {
+			h.mu.Lock()
+			if h.failed {
+				h.mu.Unlock()
+				return
+			}
+			b := h.m.mine(h.r, h.pickBlockTxs())
+			ids := []int{}
+			for _, tx := range b.Txs {
+				ids = append(ids, tx.ID)
+			}
+			h.logf("[backend] connect height=%d txs=%v", b.Height, ids)
+			h.mu.Unlock()
+			if err := h.n.ConnectTip(b.Blk, b.Height); err != nil {
+				h.mu.Lock()
+				h.vc.Diag("api_error", "ConnectTip: "+err.Error())
+				h.failed = true
+				h.mu.Unlock()
+				return
+			}
+			if err := h.n.NotifyHeight(b.Height); err != nil {
+				h.mu.Lock()
+				h.vc.Diag("api_error", "NotifyHeight: "+err.Error())
+				h.failed = true
+				h.mu.Unlock()
+				return
+			}
+			h.vc.Count("concurrent_connects", 1)
+		}
+	}()
+
+	// client-side goroutines
+	for w := 0; w < nworkers; w++ {
+		wg.Add(1)
+		go func() {
+			defer wg.Done()
+			for k := 0; k < opsPer; k++ {
+				h.mu.Lock()
+				if !h.failed {
+					h.midOp()
+					h.vc.Count("concurrent_client_ops", 1)
+				}
+				h.mu.Unlock()
+				time.Sleep(10 * time.Microsecond)
+			}
+		}()
+	}
+	wg.Wait()
+	close(stop)
+	<-consumerDone
+	h.drain()
+	for _, q := range h.pending() {
+		if h.failed {
+			break
+		}
+		h.deliver(q)
+	}
+	if !h.failed {
+		h.quiescent("after concurrent phase")
+	}
+}
+
+func verifC14RunConcurrentCase(t *testing.T, vc *verifCtx, i int, cache *channeldb.HeightHintCache) {
+	h, in := verifC14Setup(t, vc, i, cache, 2, 4)
+	for ph := 0; ph < in.Ops && !h.failed; ph++ {
+		h.concurrentPhase()
+		// sequential interlude (reorgs, restarts, ...).
+		for k := h.r.Intn(4); k > 0 && !h.failed; k-- {
+			h.seqOp()
+		}
+	}
+	h.windDown()
+	vc.Count("concurrent_histories", 1)
+	h.finish(i, in)
+}
+
+func TestVerifC14Concurrent(t *testing.T) {
+	vc := verifStart(t, "C14", "concurrent")
+	defer vc.Finish()
+	// unwrapped bbolt backend: the hint cache's real Batch path.
+	cache, closeDB := verifC14OpenCache(t, "conc", true)
+	defer closeDB()
+	total := vc.N(160, 4000)
+	for i := 0; i < total; i++ {
+		if !vc.Mine(i) {
+			continue
+		}
+		verifC14RunConcurrentCase(t, vc, i, cache)
+	}
 }
 
 func verifC14Bucket(n int) int {
@@ -1456,7 +1655,7 @@ func TestVerifC14(t *testing.T) {
 	batchCache, closeBatch := verifC14OpenCache(t, "seqbatch", true)
 	defer closeBatch()
 
-	total := vc.N(2400, 200000)
+	total := vc.N(10000, 200000)
 	for i := 0; i < total; i++ {
 		if !vc.Mine(i) {
 			continue
